@@ -287,12 +287,16 @@ PROPS["C02"] = dict(
 
 PROPS["C12"] = dict(
     module="c12", func="run", level="other", crates=["emmylua_code_analysis"],
-    technique="call-graph SCC classification (name-lookup carriers vs guard operations) + opt-in clippy lints enforced on the library target",
+    technique="call-graph SCC classification (name-lookup carriers vs guard operations) + opt-in clippy lints enforced on the library target + intraprocedural bounds-fact derivation over MIR (dominating comparisons, iteration variables) for every index/slice site with an audited remainder",
     text="Decides two crash clauses for the analysis crate: every recursive component that follows type names through the index "
          "(the only recursion carrier that can be cyclic at run time) contains a recursion guard or is audited as purely "
-         "structural; and the crate's own panic lints (unwrap/panic) hold for all library code (nothing else ever runs clippy).",
-    note="Guard presence is per component, not per cycle. Indexing/expect sites, arithmetic panics and the time bound of guarded "
-         "fixpoints are not decided. Trusted: clippy, the guard and carrier tables in rules/c12.py.")
+         "structural; and the crate's own panic lints (unwrap/panic) hold for all library code (nothing else ever runs clippy). "
+         "R12c: each of the ~250 index / slice / positional Vec-String operations of the crate is in bounds by a fact the checker derives "
+         "from the MIR (comparison with len() on a dominating edge, range/enumerate iteration variable, non-empty test, find position) or "
+         "by a hand-audited entry with its reason.",
+    note="Guard presence is per component, not per cycle. Arithmetic panics and the time bound of guarded fixpoints are not decided; "
+         "audited entries are blind to later edits of the audited function's logic. Trusted: clippy, the guard and carrier tables in "
+         "rules/c12.py, tables/panic_audit.json.")
 
 PROPS["C37"] = dict(
     module="c37", func="run", level="other", crates=["emmylua_parser_desc"],
